@@ -455,6 +455,12 @@ func judgeCutLazy(f file, full func() *modeling.Mesh, k int, label string, o *vh
 		return vh.Failf("nil-without-error/"+label, "prefix %d/%d: nil mesh and nil error", k, len(f.data))
 	default:
 		rel := relate(r.m, full())
+		if strings.HasSuffix(label, "stl") && k < len(f.data) && rel == "equal" && r.m.Indices().Len() > 0 {
+			// a binary STL is exactly 84 + 50n bytes: there is no trailing framing, so a strict prefix that
+			// decodes to the complete mesh had its missing records made up (equal only because the
+			// reference decode made them up the same way)
+			return vh.Failf("fabricated/"+label, "prefix of %d/%d bytes decodes without error to all %d triangles although the file has no trailing framing", k, len(f.data), r.m.Indices().Len()/3)
+		}
 		switch rel {
 		case "equal":
 			o.Class(label + "/ok-equal-full")
